@@ -460,8 +460,8 @@ SPECS = [
          native_patch=env.native_env, reset=_reset,
          desc="one name server operation (13 kinds) from every pre-state over the stored-name pool (each name present or not, three tag sets) plus the server's own entry; symbolic name (any code points) / prefix argument; regexes and tag queries from lists; the index of a failing sqlite statement is a choice; memory back-end, sqlite back-end and reference dict compared"),
     Spec("history", h_history,
-         {"quick": {"POOL": ["ab", "aB"], "STEPS": 3, "OPS": HIST_OPS}, "thorough": {"POOL": ["ab", "aB", "a_"], "STEPS": 3, "OPS": HIST_OPS}},
+         {"quick": {"POOL": ["ab", "aB"], "STEPS": 3, "OPS": HIST_OPS}, "thorough": {"POOL": ["ab", "aB"], "STEPS": 3, "OPS": HIST_OPS + ["list_regex", "yp_any", "lookup"]}},
          covers=["hist:" + o for o in HIST_OPS] + ["check:history: reopened-sqlite-database-holds-the-map"],
          native_patch=env.native_env, reset=_reset,
-         desc="every history of 3 operations (8 kinds, names from the pool of 2 (thorough 3) names, two tag sets) from every pre-state over the pool: answers and contents of memory back-end, sqlite back-end and reference map agree after every step, the reopened sqlite database holds the map, final lookups answer from it"),
+         desc="every history of 3 operations (8 kinds, 8 (thorough 11) kinds, names from the pool, two tag sets) from every pre-state over the pool: answers and contents of memory back-end, sqlite back-end and reference map agree after every step, the reopened sqlite database holds the map, final lookups answer from it"),
 ]
